@@ -346,8 +346,14 @@ func (st *programState) runSaveStatement(saveStatement parser.SaveStatement) ([]
 
 	balance := st.getCachedBalance(*account, *asset)
 
+	// an account that is already overdrawn has nothing to save:
+	// its (negative) balance must not be raised
+	balanceIsNegative := balance.Cmp(big.NewInt(0)) == -1
+
 	if amt == nil {
-		balance.Set(big.NewInt(0))
+		if !balanceIsNegative {
+			balance.Set(big.NewInt(0))
+		}
 	} else {
 		// Do not allow negative saves
 		if amt.Cmp(big.NewInt(0)) == -1 {
@@ -355,6 +361,10 @@ func (st *programState) runSaveStatement(saveStatement parser.SaveStatement) ([]
 				Range:  saveStatement.SentValue.GetRange(),
 				Amount: MonetaryInt(*amt),
 			}
+		}
+
+		if balanceIsNegative {
+			return nil, nil
 		}
 
 		// we decrease the balance by "amt"
